@@ -439,6 +439,104 @@ def rewind_cases():
                 yield {'leg': 'rewind', 'first': first, 'back_to': back_to, 'again': 3, 'start': start, 'freq': freq}
 
 
+def interrupted_case(case):
+    """A system lets an exception escape during one of the steps of a request (StopIteration from a bare next(), a
+    KeyError, ...).  Either the error reaches the caller, or the request did what it was asked to do: a request that
+    returns normally has advanced the clock by the steps requested and run what was due."""
+    reset_library()
+    model = new_model(seed=1)
+    log = []
+    Rec = make_rec(log)
+    exc = {'StopIteration': StopIteration, 'KeyError': KeyError, 'GeneratorExit': GeneratorExit, 'StopAsyncIteration': StopAsyncIteration}[case['exc']]
+    fired = []
+
+    class Faulty(Rec):
+        def execute(self):
+            super().execute()
+            if self.model.systems.timestep == case['at'] and not fired:
+                fired.append(True)
+                if case['exc'] == 'StopIteration':
+                    next(iter(()))          # a bare next() on an exhausted iterator
+                raise exc('from a system')
+    for o in (Rec('head', model, 2, 0, DEFAULT, 1), Faulty('faulty', model, 1, 0, DEFAULT, 1), Rec('tail', model, 0, 0, DEFAULT, 1)):
+        model.systems.add_system(o)
+    n = case['n']
+    try:
+        if case['how'] == 'execute':
+            model.execute(n)
+        else:
+            for _ in range(n):
+                model.systems.execute_systems()
+        raised = None
+    except BaseException as e:      # noqa - whatever it is, it reached the caller
+        raised = e
+    if raised is None:
+        want = [(t, k) for t in range(n) for k in ('head', 'faulty', 'tail')]
+        if model.timestep != n or log != want:
+            raise Violation(f'{case["how"]} of {n} step(s) returned normally although a system raised {case["exc"]} during timestep '
+                            f'{case["at"]}, and the request was not carried out', expected=[n, len(want)],
+                            observed=[model.timestep, list(log)])
+    elif model.timestep != model.systems.timestep:
+        raise Violation('model timestep differs from the scheduler timestep after an interrupted request')
+    return tuple(log)
+
+
+def interrupted_cases():
+    for exc in ('StopIteration', 'KeyError', 'GeneratorExit', 'StopAsyncIteration'):
+        for how in ('execute', 'execute_systems'):
+            for n in (1, 3):
+                for at in range(n):
+                    yield {'leg': 'interrupted', 'exc': exc, 'how': how, 'n': n, 'at': at}
+
+
+def tuned_case(case):
+    """A system class whose frequency / end are read-through properties over a setting of the model that is retuned
+    while the model runs: what runs in timestep t is decided by the values the attributes have in timestep t."""
+    reset_library()
+    model = new_model(seed=1)
+    log = []
+    Rec = make_rec(log)
+    setting = {'freq': case['f0'], 'end': case['e0']}
+
+    class Tuned(Rec):
+        @property
+        def frequency(self):
+            return setting['freq']
+
+        @frequency.setter
+        def frequency(self, v):      # the base constructor assigns it: the setting stays the model's
+            pass
+
+        @property
+        def end(self):
+            return setting['end']
+
+        @end.setter
+        def end(self, v):
+            pass
+    model.systems.add_system(Tuned('tuned', model, 1, 0, DEFAULT, 1))
+    model.systems.add_system(Rec('plain', model, 0, 0, DEFAULT, 1))
+    exp = []
+    for t in range(10):
+        if t == case['at']:
+            setting['freq'], setting['end'] = case['f1'], case['e1']
+        if active(t, 0, setting['end'], setting['freq']):
+            exp.append((t, 'tuned'))
+        exp.append((t, 'plain'))
+        model.execute()
+    if log != exp:
+        raise Violation(f'a system whose frequency / end read a model setting ({case["f0"]}, {case["e0"]}) retuned to '
+                        f'({case["f1"]}, {case["e1"]}) at timestep {case["at"]}: activations', expected=exp, observed=list(log))
+    return tuple(log)
+
+
+def tuned_cases():
+    for f0, f1 in ((1, 3), (3, 1), (2, 5), (4, 2)):
+        for e0, e1 in ((20, 20), (20, 5), (3, 20)):
+            for at in (1, 2, 4, 6):
+                yield {'leg': 'tuned', 'f0': f0, 'f1': f1, 'e0': e0, 'e1': e1, 'at': at}
+
+
 def replaced_cases():
     for ts in (0, 2, 4):
         for sp in (10, 3, 1):             # supervisor ahead of, level with (registered later), behind the retired system
@@ -712,7 +810,8 @@ def run(ctx):
                 ctx.report(case, v)
                 if ctx.full():
                     return
-        for gen, fn, name in ((manager_swap_cases, manager_swap_case, 'manager_swap'), (rewind_cases, rewind_case, 'rewind')):
+        for gen, fn, name in ((manager_swap_cases, manager_swap_case, 'manager_swap'), (rewind_cases, rewind_case, 'rewind'),
+                              (interrupted_cases, interrupted_case, 'interrupted'), (tuned_cases, tuned_case, 'tuned')):
             nn = 0
             for case in gen():
                 ctx.traces += 1
@@ -750,6 +849,12 @@ def replay(case):
         return
     if case['leg'] == 'manager_swap':
         hbfs._guard(manager_swap_case, case)
+        return
+    if case['leg'] == 'interrupted':
+        hbfs._guard(interrupted_case, case)
+        return
+    if case['leg'] == 'tuned':
+        hbfs._guard(tuned_case, case)
         return
     if case['leg'] == 'rewind':
         hbfs._guard(rewind_case, case)
